@@ -2,10 +2,20 @@ package main
 
 import (
 	"fmt"
+	"net"
+	"strconv"
 	"strings"
 )
 
 // Strings: concrete Go strings, or *SymStr (term of the uninterpreted sort S, or opaque text).
+//
+// Constructors of S-terms (all with the equalities real strings satisfy):
+//   lit!<hex>            literal
+//   IPStr(b0..b15)       net.IP.String() of the 16-byte normal form; injective
+//   NetStr(b0..b15,len)  net.IPNet.String() (canonical masks only); injective
+//   Dec(x64)             decimal text of a signed 64-bit value; injective
+//   cat(a,b)             concatenation; compared through flattened segment lists
+//   ite(c,a,b)           symbolic choice
 
 func (in *Interp) strTerm(v Value) *Term {
 	switch s := v.(type) {
@@ -22,6 +32,20 @@ func (in *Interp) strTerm(v Value) *Term {
 
 func litTerm(s string) *Term {
 	return App("lit!"+fmt.Sprintf("%x", s), SStr)
+}
+
+// litOf returns the literal text of a lit! term.
+func litOf(t *Term) (string, bool) {
+	if t.op == OApp && len(t.args) == 0 && strings.HasPrefix(t.name, "lit!") {
+		hx := t.name[4:]
+		out := make([]byte, 0, len(hx)/2)
+		for i := 0; i+1 < len(hx); i += 2 {
+			b, _ := strconv.ParseUint(hx[i:i+2], 16, 8)
+			out = append(out, byte(b))
+		}
+		return string(out), true
+	}
+	return "", false
 }
 
 func (in *Interp) strConcat(x, y Value) Value {
@@ -75,31 +99,84 @@ func (in *Interp) symStrLen(s *SymStr) Value {
 		if t.op == OIte {
 			return Ite(t.args[0], rec(t.args[1]), rec(t.args[2]))
 		}
-		in.abort("unsupported: len of symbolic string %s", t)
-		return nil
+		if t.op == OApp && t.name == "cat" {
+			return BvBin(OAdd, rec(t.args[0]), rec(t.args[1]))
+		}
+		// constructors never produce empty strings; the exact length is not modelled
+		return App("strlen", 64, t)
 	}
-	return rec(s.t)
+	l := rec(s.t)
+	if l.op == OApp && l.name == "strlen" {
+		// len(s) > 0 is the only fact available
+		in.assumeAxiom(Cmp(OSlt, BV(64, 0), l))
+		in.assumeAxiom(Cmp(OSlt, l, BV(64, 64)))
+	}
+	return l
 }
 
+// symBytes marks the byte image of a symbolic string; it only flows into intrinsics.
+type symBytes struct{ s *SymStr }
+
 func (in *Interp) symBytesToString(b Slice) Value {
+	if len(b) == 1 {
+		if sb, ok := b[0].(symBytes); ok {
+			return sb.s
+		}
+	}
 	in.abort("unsupported: string(bytes) with symbolic bytes")
 	return nil
 }
 
 func (in *Interp) symStringToBytes(s *SymStr) Slice {
-	in.abort("unsupported: []byte(symbolic string)")
-	return nil
+	return Slice{symBytes{s}}
 }
 
 func (in *Interp) sprintLike(args Slice) Value {
 	return &SymStr{opaque: true}
 }
 
-func (in *Interp) sprintf(fr *frame, format string, args Slice) Value {
-	if !strings.Contains(format, "%") {
-		return format
+// ---- equality
+
+type seg struct {
+	lit  string
+	atom *Term
+}
+
+func flattenStr(t *Term, out *[]seg) {
+	if t.op == OApp && t.name == "cat" {
+		flattenStr(t.args[0], out)
+		flattenStr(t.args[1], out)
+		return
 	}
-	return &SymStr{opaque: true}
+	if l, ok := litOf(t); ok {
+		if l == "" {
+			return
+		}
+		if n := len(*out); n > 0 && (*out)[n-1].atom == nil {
+			(*out)[n-1].lit += l
+			return
+		}
+		*out = append(*out, seg{lit: l})
+		return
+	}
+	*out = append(*out, seg{atom: t})
+}
+
+// atomClass describes the alphabet of a constructor's range (used to decide whether a literal
+// separator can occur inside it).
+func atomAlphabet(t *Term) string {
+	if t.op != OApp {
+		return ""
+	}
+	switch t.name {
+	case "IPStr":
+		return "0123456789abcdef:."
+	case "NetStr":
+		return "0123456789abcdef:./"
+	case "Dec":
+		return "-0123456789"
+	}
+	return ""
 }
 
 func (in *Interp) strTermEq(a, b *Term) *Term {
@@ -109,25 +186,407 @@ func (in *Interp) strTermEq(a, b *Term) *Term {
 	if b.op == OIte {
 		return Ite(b.args[0], in.strTermEq(a, b.args[1]), in.strTermEq(a, b.args[2]))
 	}
+	if deepSame(a, b) {
+		return tTrue
+	}
+	la, aLit := litOf(a)
+	lb, bLit := litOf(b)
+	if aLit && bLit {
+		return Bool(la == lb)
+	}
+	if aLit {
+		a, b = b, a
+		lb, bLit = la, true
+	}
+	// now a is not a literal
+	if a.op == OApp && b.op == OApp && a.name == b.name && len(a.args) == len(b.args) {
+		switch a.name {
+		case "IPStr", "NetStr", "Dec":
+			r := tTrue
+			for i := range a.args {
+				r = And(r, Eq(a.args[i], b.args[i]))
+			}
+			return r
+		}
+	}
+	if bLit {
+		lit := lb
+		switch {
+		case a.op == OApp && a.name == "IPStr":
+			ip := net.ParseIP(lit)
+			if ip == nil || ip.String() != lit {
+				return tFalse
+			}
+			ip16 := ip.To16()
+			r := tTrue
+			for i := 0; i < 16; i++ {
+				r = And(r, Eq(a.args[i], BV(8, uint64(ip16[i]))))
+			}
+			return r
+		case a.op == OApp && a.name == "Dec":
+			v, err := strconv.ParseInt(lit, 10, 64)
+			if err != nil || strconv.FormatInt(v, 10) != lit {
+				return tFalse
+			}
+			return Eq(a.args[0], BV(64, uint64(v)))
+		case a.op == OApp && a.name == "NetStr":
+			_, n, err := net.ParseCIDR(lit)
+			if err != nil || n.String() != lit {
+				return tFalse
+			}
+			ones, bits := n.Mask.Size()
+			ip16 := n.IP.To16()
+			if bits == 32 {
+				ones += 96
+			}
+			r := Eq(a.args[16], BV(8, uint64(ones)))
+			fam := uint64(0)
+			if bits == 128 && n.IP.To4() == nil {
+				fam = 1
+			}
+			r = And(r, Eq(a.args[17], BV(8, fam)))
+			for i := 0; i < 16; i++ {
+				r = And(r, Eq(a.args[i], BV(8, uint64(ip16[i]))))
+			}
+			return r
+		}
+	}
+	// different injective constructors have disjoint ranges where the alphabets / shapes differ
+	if a.op == OApp && b.op == OApp && a.name != b.name {
+		ka, kb := a.name, b.name
+		known := map[string]bool{"IPStr": true, "NetStr": true, "Dec": true}
+		if known[ka] && known[kb] {
+			return tFalse // IPStr has '.' or ':' and no '/', NetStr has '/', Dec has only digits
+		}
+	}
+	// concatenations: compare flattened segment lists
+	var sa, sb []seg
+	flattenStr(a, &sa)
+	flattenStr(b, &sb)
+	if len(sa) > 1 || len(sb) > 1 {
+		if r, ok := in.segsEq(sa, sb); ok {
+			return r
+		}
+	}
 	return Eq(a, b)
 }
 
-// litOf returns the literal text of a lit! term.
-func litOf(t *Term) (string, bool) {
-	if t.op == OApp && len(t.args) == 0 && strings.HasPrefix(t.name, "lit!") {
-		var out []byte
-		hx := t.name[4:]
-		for i := 0; i+1 < len(hx); i += 2 {
-			var b byte
-			fmt.Sscanf(hx[i:i+2], "%02x", &b)
-			out = append(out, b)
+// segsEq decides equality of two segment lists when the decomposition is unambiguous.
+func (in *Interp) segsEq(sa, sb []seg) (*Term, bool) {
+	r := tTrue
+	i, j := 0, 0
+	for i < len(sa) && j < len(sb) {
+		x, y := sa[i], sb[j]
+		switch {
+		case x.atom == nil && y.atom == nil:
+			// both literal: strip the common prefix
+			n := len(x.lit)
+			if len(y.lit) < n {
+				n = len(y.lit)
+			}
+			if x.lit[:n] != y.lit[:n] {
+				return tFalse, true
+			}
+			if len(x.lit) == n {
+				i++
+			} else {
+				sa[i].lit = x.lit[n:]
+			}
+			if len(y.lit) == n {
+				j++
+			} else {
+				sb[j].lit = y.lit[n:]
+			}
+		case x.atom != nil && y.atom != nil:
+			// atom vs atom: unambiguous only if what follows each is a literal separator outside both
+			// alphabets (or both are last)
+			if !in.atomBoundaryOK(sa, i, sb, j) {
+				return nil, false
+			}
+			r = And(r, in.strTermEq(x.atom, y.atom))
+			i++
+			j++
+		default:
+			// literal vs atom: the atom must equal a prefix of the literal up to the separator
+			var lit string
+			var atom *Term
+			var rest []seg
+			var litIsA bool
+			if x.atom == nil {
+				lit, atom, rest, litIsA = x.lit, y.atom, sb[j+1:], true
+			} else {
+				lit, atom, rest, litIsA = y.lit, x.atom, sa[i+1:], false
+			}
+			alpha := atomAlphabet(atom)
+			if alpha == "" {
+				return nil, false
+			}
+			// longest prefix of lit inside the alphabet
+			k := 0
+			for k < len(lit) && strings.IndexByte(alpha, lit[k]) >= 0 {
+				k++
+			}
+			if k < len(lit) {
+				// next char of lit is a separator: the atom's text is exactly lit[:k] provided the atom is
+				// followed by a literal starting with that separator
+				if len(rest) == 0 || rest[0].atom != nil || rest[0].lit[0] != lit[k] {
+					if len(rest) == 0 {
+						return tFalse, true
+					}
+					return nil, false
+				}
+			} else if len(rest) != 0 {
+				return nil, false
+			}
+			r = And(r, in.strTermEq(atom, litTerm(lit[:k])))
+			if litIsA {
+				if k == len(lit) {
+					i++
+				} else {
+					sa[i].lit = lit[k:]
+				}
+				j++
+			} else {
+				if k == len(lit) {
+					j++
+				} else {
+					sb[j].lit = lit[k:]
+				}
+				i++
+			}
 		}
-		return string(out), true
+		if r.IsFalse() {
+			return tFalse, true
+		}
 	}
-	return "", false
+	if i < len(sa) || j < len(sb) {
+		// leftover segments: atoms are never empty, literals here are non-empty
+		return tFalse, true
+	}
+	return r, true
+}
+
+func (in *Interp) atomBoundaryOK(sa []seg, i int, sb []seg, j int) bool {
+	alphaA, alphaB := atomAlphabet(sa[i].atom), atomAlphabet(sb[j].atom)
+	lastA, lastB := i == len(sa)-1, j == len(sb)-1
+	if lastA && lastB {
+		return true
+	}
+	if lastA != lastB {
+		return false
+	}
+	na, nb := sa[i+1], sb[j+1]
+	if na.atom != nil || nb.atom != nil {
+		return false
+	}
+	if alphaA == "" || alphaB == "" {
+		return false
+	}
+	return strings.IndexByte(alphaA, na.lit[0]) < 0 && strings.IndexByte(alphaB, na.lit[0]) < 0 &&
+		strings.IndexByte(alphaA, nb.lit[0]) < 0 && strings.IndexByte(alphaB, nb.lit[0]) < 0
+}
+
+// ---- order: uninterpreted strict total order on the S-terms compared on the path
+
+func (in *Interp) assumeAxiom(c *Term) {
+	if c.op == OConst {
+		return
+	}
+	if in.path.merge != nil {
+		panic(mergeAbort{"axiom inside merged call"})
+	}
+	in.addPC(c)
+	in.w.solver.AssertFrame(c)
+}
+
+func slt(a, b *Term) *Term { return App("slt", SBool, a, b) }
+
+func (in *Interp) registerOrd(t *Term) {
+	p := in.path
+	for _, u := range p.ordTerms {
+		if deepSame(u, t) {
+			return
+		}
+	}
+	lt, tLit := litOf(t)
+	for _, u := range p.ordTerms {
+		eq := in.strTermEq(t, u)
+		// totality and asymmetry: exactly one of t<u, u<t, t=u
+		a, b := slt(t, u), slt(u, t)
+		in.assumeAxiom(Or(Or(a, b), eq))
+		in.assumeAxiom(Not(And(a, b)))
+		in.assumeAxiom(Not(And(a, eq)))
+		in.assumeAxiom(Not(And(b, eq)))
+		if lu, uLit := litOf(u); tLit && uLit {
+			in.assumeAxiom(Eq(a, Bool(lt < lu)))
+		}
+	}
+	// transitivity over all triples that include t
+	for i, u := range p.ordTerms {
+		for j, v := range p.ordTerms {
+			if i == j {
+				continue
+			}
+			// t<u & u<v => t<v ; u<t & t<v => u<v ; u<v & v<t => u<t
+			in.assumeAxiom(Or(Not(And(slt(t, u), slt(u, v))), slt(t, v)))
+			in.assumeAxiom(Or(Not(And(slt(u, t), slt(t, v))), slt(u, v)))
+			in.assumeAxiom(Or(Not(And(slt(u, v), slt(v, t))), slt(u, t)))
+		}
+	}
+	p.ordTerms = append(p.ordTerms, t)
 }
 
 func (in *Interp) strTermLess(a, b *Term) *Term {
-	in.abort("unsupported: order on symbolic strings (not built yet)")
+	if a.op == OIte {
+		return Ite(a.args[0], in.strTermLess(a.args[1], b), in.strTermLess(a.args[2], b))
+	}
+	if b.op == OIte {
+		return Ite(b.args[0], in.strTermLess(a, b.args[1]), in.strTermLess(a, b.args[2]))
+	}
+	la, aLit := litOf(a)
+	lb, bLit := litOf(b)
+	if aLit && bLit {
+		return Bool(la < lb)
+	}
+	if deepSame(a, b) {
+		return tFalse
+	}
+	in.registerOrd(a)
+	in.registerOrd(b)
+	return slt(a, b)
+}
+
+// ---- constructors
+
+// ipStringValue implements net.IP.String for a byte slice with symbolic bytes.
+func (in *Interp) ipStringValue(ip Slice) Value {
+	if bs, ok := concBytes(ip); ok {
+		return net.IP(bs).String()
+	}
+	var b16 []*Term
+	switch len(ip) {
+	case 4:
+		for i := 0; i < 10; i++ {
+			b16 = append(b16, BV(8, 0))
+		}
+		b16 = append(b16, BV(8, 0xff), BV(8, 0xff))
+		for _, e := range ip {
+			b16 = append(b16, e.(*Term))
+		}
+	case 16:
+		for _, e := range ip {
+			b16 = append(b16, e.(*Term))
+		}
+	default:
+		in.abort("unsupported: IP.String on symbolic address of length %d", len(ip))
+	}
+	return &SymStr{t: App("IPStr", SStr, b16...)}
+}
+
+func decString(x *Term, signed bool) Value {
+	if x.op == OConst {
+		if signed {
+			return strconv.FormatInt(x.sval(), 10)
+		}
+		return strconv.FormatUint(x.val, 10)
+	}
+	return &SymStr{t: App("Dec", SStr, Resize(x, 64, signed))}
+}
+
+// sprintf supports the key-building uses of fmt.Sprintf: constant format with %s %d %v %q verbs.
+func (in *Interp) sprintf(fr *frame, format string, args Slice) Value {
+	if !strings.Contains(format, "%") {
+		return format
+	}
+	var out Value = ""
+	ai := 0
+	i := 0
+	lit := ""
+	flush := func() {
+		if lit != "" {
+			out = in.strConcat(out, lit)
+			lit = ""
+		}
+	}
+	for i < len(format) {
+		c := format[i]
+		if c != '%' {
+			lit += string(c)
+			i++
+			continue
+		}
+		if i+1 >= len(format) {
+			return &SymStr{opaque: true}
+		}
+		v := format[i+1]
+		i += 2
+		if v == '%' {
+			lit += "%"
+			continue
+		}
+		if ai >= len(args) {
+			return &SymStr{opaque: true}
+		}
+		arg := args[ai].(Iface)
+		ai++
+		var piece Value
+		switch v {
+		case 's', 'v', 'd', 'q':
+			piece = in.formatOperand(fr, arg, v)
+		default:
+			return &SymStr{opaque: true}
+		}
+		if piece == nil {
+			return &SymStr{opaque: true}
+		}
+		if ss, ok := piece.(*SymStr); ok && ss.opaque {
+			return ss
+		}
+		flush()
+		if v == 'q' {
+			out = in.strConcat(out, "\"")
+			out = in.strConcat(out, piece)
+			out = in.strConcat(out, "\"")
+		} else {
+			out = in.strConcat(out, piece)
+		}
+	}
+	flush()
+	return out
+}
+
+func (in *Interp) formatOperand(fr *frame, arg Iface, verb byte) Value {
+	if arg.t == nil {
+		return nil
+	}
+	switch v := arg.v.(type) {
+	case string:
+		return v
+	case *SymStr:
+		return v
+	case *Term:
+		if v.sort == SBool {
+			if v.op == OConst {
+				return strconv.FormatBool(v.val == 1)
+			}
+			return nil
+		}
+		_, signed, ok := isIntType(arg.t)
+		if !ok {
+			return nil
+		}
+		return decString(v, signed)
+	}
+	// Stringer / error
+	if hasMethod(in.prog, arg.t, "String") && verb != 'd' {
+		r := in.invoke(fr, arg, "String")
+		switch r.(type) {
+		case string, *SymStr:
+			return r
+		}
+	}
+	if hasMethod(in.prog, arg.t, "Error") && verb != 'd' {
+		return &SymStr{opaque: true}
+	}
 	return nil
 }
